@@ -8,6 +8,7 @@ CONSTANTS
   MaxPauses = 0
   TimeoutTicks = 2
   MaxTicks = 3
+  Weaken = "none"
 INVARIANTS ObsFidelity ObsShortPauseCompletes ObsPauseNoHang ObsNoDataWhilePaused
 CONSTRAINT HW
 POSTCONDITION Accepted
